@@ -32,4 +32,11 @@ expect_fail "call-site clause implied only by what follows" 'common.probablyPrim
 sed -i 's|^//@ func getSafePrime$|&\n//@   requires val(p) > 0 \&\& val(p) < 0|' "$W/common/zz_contracts_verif.go"
 out=$(bin/tsvc func -repo "$W" -nocache -timeout 60 -key 'common.getSafePrime' 2>&1)
 if echo "$out" | grep -q "VACUOUS"; then echo "ok    contradictory requires (reported vacuous)"; else echo "HOLE  contradictory requires accepted"; rc=1; fi
+git -C "$W" checkout -q -- .
+# 5. replay canary: a seeded code change whose failing obligation has a concrete input
+#    (a 33-byte slice); the model must be rebuilt and must panic on the real code
+git -C "$W" apply seeded/C06-m4/patch.diff 2>/dev/null || git -C "$W" apply "$PWD/seeded/C06-m4/patch.diff"
+out=$(bin/tsvc func -repo "$W" -nocache -timeout 60 -dump -key 'eddsa/signing.copyBytes' 2>&1)
+if echo "$out" | grep -q "replay .*copyBytes/slice.* -> replayed-on-real-code"; then echo "ok    replay canary (slice bounds panic reproduced on the real code)"; else echo "HOLE  replay canary: the counterexample did not replay"; echo "$out" | tail -4; rc=1; fi
+git -C "$W" checkout -q -- .
 exit $rc
